@@ -26,7 +26,7 @@ def main(tier, replay=None):
                 "quiescent point: no committed todo entry is left unnoticed; fairness: an identical block of calls repeated around select() "
                 "yields, and is a busy loop when nobody else can run; timeouts-*: histories with deferrals/TERM where every blocking select "
                 "must wake no later than the earliest due time + 1 s")
-    res.assumptions = ["virtual kernel FIFO/select semantics as measured on Linux (vk/conformance)", "calls of the three programs that touch neither todo/ nor lock/trigger commute with the other side and are not scheduling points"]
+    res.assumptions = ["virtual kernel FIFO/select semantics as measured on Linux (bin/conformance)", "calls of the three programs that touch neither todo/ nor lock/trigger commute with the other side and are not scheduling points"]
     res.require_nonzero("evaluations", "race_trigger_pulled_during_scan", "race_link_during_scan", "race_trigger_open_ENXIO_during_rearm", "readdir_sees_late_entry", "ticks", "reports_Z")
     res.notes.append("virtual kernel vs Linux: %d operation sequences compared before this run, all agree (bin/conformance)" % nconf)
     return res.finish()
